@@ -53,7 +53,30 @@ pub fn gen_lookalike(g: &mut Gen) {
     g.count("bin-skip-lookalike-payloads");
 }
 
+/// every byte value inside a skipped TEXT container (bare, inside a quoted string, after a backslash,
+/// inside a comment), at two offsets of the 8-byte word the skip loop reads: the word-at-a-time brace /
+/// quote / comment detection has per-byte-value blind spots that documents reach only by luck
+pub fn gen_text_byte_sweep(g: &mut Gen) {
+    for b in 0..=255u8 {
+        for pad in [0usize, 5] {
+            let fill = |n: usize| std::iter::repeat(b'x').take(n).collect::<Vec<u8>>();
+            let mut shapes: Vec<Vec<u8>> = vec![];
+            { let mut v = b"k={ ".to_vec(); v.extend(fill(pad)); v.push(b' '); v.push(b); v.push(b' '); v.extend(fill(12)); v.extend_from_slice(b" } next=1 "); if !matches!(b, b'{' | b'}' | b'"' | b'#' | b'\\') { shapes.push(v); } }
+            { let mut v = b"k={ a=\"".to_vec(); v.extend(fill(pad)); v.push(b); v.extend(fill(12)); v.extend_from_slice(b"\" } next=1 "); if b != b'"' && b != b'\\' { shapes.push(v); } }
+            { let mut v = b"k={ a=\"".to_vec(); v.extend(fill(pad)); v.push(b'\\'); v.push(b); v.extend(fill(12)); v.extend_from_slice(b"\" } next=1 "); shapes.push(v); }
+            { let mut v = b"k={ a=b #".to_vec(); v.extend(fill(pad)); v.push(b); v.extend(fill(12)); v.extend_from_slice(b"\n c=d } next=1 "); if b != b'\n' { shapes.push(v); } }
+            for d in shapes {
+                g.emit(format!("tskip 0 - {} 0", hex(&d)));
+                g.emit(format!("tskip {} R1 {} 0", d.len() + 9, hex(&d)));
+                g.emit(format!("tskip 64 R5 {} 0", hex(&d)));
+            }
+        }
+    }
+    g.count("text-skip-byte-value-sweep");
+}
+
 pub fn gen(g: &mut Gen) {
+    gen_text_byte_sweep(g);
     super::c07::gen_skip(g);
     super::c08::gen_skip(g);
     gen_lookalike(g);
